@@ -3,17 +3,49 @@
    multiplication or division the parser performs returns the correctly rounded
    value of the literal. Stated against Flocq's real-number semantics. *)
 From Coq Require Import ZArith Reals Lia Lra SpecFloat.
-From Flocq Require Import Core BinarySingleNaN PrimFloat.
+From Flocq Require Import Core BinarySingleNaN.
 Require Import Base Value Float.
 
 Local Open Scope Z_scope.
+
+(* binary64; Flocq's PrimFloat.v has these equivalences too, but importing it
+   would pull the primitive-float axioms of Coq.Floats into the library closure *)
+Definition p53 : Z := 53.
+Definition e1024 : Z := 1024.
+Lemma Hprec : Prec_gt_0 p53.  Proof. reflexivity. Qed.
+Lemma Hmax : Prec_lt_emax p53 e1024.  Proof. reflexivity. Qed.
 Local Existing Instance Hprec.
 Local Existing Instance Hmax.
-Local Notation p53 := FloatOps.prec.
-Local Notation e1024 := FloatOps.emax.
 Local Notation bfloat := (binary_float p53 e1024).
 Local Notation fexp64 := (SpecFloat.fexp p53 e1024).
 Local Notation rnd64 := (round radix2 fexp64 ZnearestE).
+
+Lemma round_nearest_even_equiv s m l : round_nearest_even m l = choice_mode mode_NE s m l.
+Proof.
+  case l; [reflexivity|intro c]. case c; [ | reflexivity..].
+  now simpl; unfold Round.cond_incr; case Z.even.
+Qed.
+Lemma binary_round_aux_equiv sx mx ex lx :
+  SpecFloat.binary_round_aux p53 e1024 sx mx ex lx = binary_round_aux p53 e1024 mode_NE sx mx ex lx.
+Proof.
+  unfold SpecFloat.binary_round_aux, binary_round_aux.
+  set (mrse' := shr_fexp _ _ _). case mrse'; intros mrs' e'; simpl.
+  now rewrite (round_nearest_even_equiv sx).
+Qed.
+Lemma binary_round_equiv s m e :
+  SpecFloat.binary_round p53 e1024 s m e = binary_round p53 e1024 mode_NE s m e.
+Proof.
+  unfold SpecFloat.binary_round, binary_round, shl_align_fexp.
+  set (mez := shl_align _ _ _); case mez as [mz ez]. apply binary_round_aux_equiv.
+Qed.
+Lemma binary_normalize_equiv m e szero :
+  SpecFloat.binary_normalize p53 e1024 m e szero = B2SF (binary_normalize p53 e1024 Hprec Hmax mode_NE m e szero).
+Proof.
+  case m as [ | p | p].
+  - now simpl.
+  - simpl; rewrite B2SF_SF2B; apply binary_round_equiv.
+  - simpl; rewrite B2SF_SF2B; apply binary_round_equiv.
+Qed.
 
 Definition bnorm (z : Z) : bfloat := binary_normalize p53 e1024 Hprec Hmax mode_NE z 0 false.
 
@@ -63,7 +95,7 @@ Proof.
     apply Rlt_le_trans with (IZR (2 ^ 53) * bpow radix2 e)%R.
     + apply Rmult_lt_compat_r; [apply bpow_gt_0|]. apply IZR_lt. exact Hm.
     + change (2 ^ 53) with (radix2 ^ 53). rewrite IZR_Zpower by lia. rewrite <- bpow_plus.
-      apply bpow_le. unfold e1024, FloatOps.emax. lia.
+      apply bpow_le. unfold e1024. lia.
 Qed.
 
 Lemma five_pow_small e : 0 <= e <= 22 -> Z.abs (5 ^ e) < 2 ^ 53.
